@@ -31,6 +31,13 @@ module.exports = function (repo, loadPrelude) {
         let h = ''; for (let i = 0; i < k; i++) h += String.fromCharCode(dst.$array[2 + i]);
         return k + ' ' + U.strToHex(h);
       }
+      case 'jslit': { // ECMAScript string value of a literal text (evaluated by the engine)
+        const lit = U.hexToStr(a[1]);
+        let v;
+        try { v = (0, eval)(lit); } catch (e) { return 'reject'; }
+        if (typeof v !== 'string') return 'reject';
+        return U.strToHex(v);
+      }
     }
     return 'bad-op';
   };
